@@ -52,7 +52,9 @@ pub fn run(out: &mut Out, seed: u64, tier: &str) {
         // every third input carries a title in Latin-1 (0xC5 = A-ring, 0xE9 = e-acute: not valid UTF-8), as older programs write them
         let latin1 = k % 3 == 2;
         let mut text = format!("{}\n{}\n", m.n(), if latin1 { "r(OH) in @A, @energie".to_string() } else if k % 3 == 1 { (*rng.pick(&crate::s_xyz::TITLES)).to_string() } else { String::new() });
-        for (s, p) in m.symbols().iter().zip(m.xs.iter()) { text += &format!("{} {:.8} {:.8} {:.8}\n", s, p[0], p[1], p[2]); }
+        // (every fourth input spells its numbers as numpy / C / Fortran do: 9.58400000e-01, -1.1E-03, +0.5)
+        let spell = |v: f64, j: usize| -> String { if k % 4 != 3 { format!("{:.8}", v) } else { match j % 3 { 0 => format!("{:.8e}", v), 1 => format!("{:.8E}", v).replace("E", "E+").replace("E+-", "E-"), _ => format!("{:+.8}", v) } } };
+        for (a, (s, p)) in m.symbols().iter().zip(m.xs.iter()).enumerate() { text += &format!("{} {} {} {}\n", s, spell(p[0], a), spell(p[1], a + 1), spell(p[2], a + 2)); }
         let mr = { let (syms, xs) = parse_xyz(text.as_bytes()).unwrap(); Mol { name: m.name.clone(), zs: syms.iter().map(|s| z_of(s)).collect(), xs } };
         let variants: Vec<(Vec<&str>, &str)> = vec![
             (vec!["in.xyz"], "in.xyz"), (vec!["in.xyz", "-f", "UFF"], "in.xyz"), (vec!["in.xyz", "--forcefield", "RB"], "in.xyz"),
